@@ -126,12 +126,12 @@ func modifyValue(s *slip.Scope, value any, caller slip.Caller, asBag bool, depth
 		if bg, _ := obj.(*flavors.Instance); bg != nil && bg.Type == flavor {
 			return bg.Any
 		}
-		return slip.Simplify(obj)
+		return ObjectToBag(s, obj, depth)
 	}
 	obj := slip.SimpleObject(value)
 	obj = caller.Call(s, slip.List{obj}, depth)
 	if bg, _ := obj.(*flavors.Instance); bg != nil && bg.Type == flavor {
 		return bg.Any
 	}
-	return slip.Simplify(obj)
+	return ObjectToBag(s, obj, depth)
 }
